@@ -18,7 +18,7 @@ func init() {
 	mc.Register(&mc.Property{
 		ID:    "C14",
 		Title: "The parser is total",
-		Rule: "(a) every valid script of the grammar-complete generator up to weight W; (b) deviation-bounded edits of each: truncation at EVERY byte offset, deletion and duplication of every token, insertion before and replacement of every token by every entry of a 52-entry token alphabet (all token kinds, 25-digit numerals, 08%, 1/0, non-ASCII, unterminated string / comment, stray characters); (c) ALL token sequences of length <= L over that alphabet (token soups); " +
+		Rule: "(a) every valid script of the grammar-complete generator up to weight W; (b) deviation-bounded edits of each, in a one-line layout and in a one-token-per-line layout with mixed LF / CRLF endings: truncation at EVERY byte offset, deletion and duplication of every token, insertion before and replacement of every token by every entry of a 52-entry token alphabet (all token kinds, 25-digit numerals, 08%, 1/0, non-ASCII, unterminated string / comment, stray characters); (c) ALL token sequences of length <= L over that alphabet (token soups); " +
 			"oracle: Parse returns without panicking; the reference recognizer (maximal-munch lexer + Earley over the grammar of Numscript.g4) says valid => zero errors, invalid => >= 1 error; every error starts inside the text or at its end; ParseErrorsToString does not panic; " +
 			"non-trivial = the text is not a generator script as such (it was edited or is a soup); distinct = the text",
 		Assumptions: []string{"texts whose lexing depends on nested comment openers are not modelled by the reference lexer and are only checked for crashes and error positions", "the reference grammar is a transcription of Numscript.g4; its agreement with the generated parser on every explored text is itself part of what is checked"},
@@ -87,6 +87,7 @@ func textSpace(w *mc.Worker, tier string, body func(text string, edited bool)) {
 					}
 					toks = append(toks, pr.Toks[i+1:]...)
 					once(strings.Join(toks, " ")+"\n", true)
+					once(mixedLines(toks, i), true)
 				case 4, 5: // insert before / replace token i
 					i := in.Choose(len(pr.Toks) + 1)
 					a := tokenAlphabet[in.Choose(len(tokenAlphabet))]
@@ -101,6 +102,7 @@ func textSpace(w *mc.Worker, tier string, body func(text string, edited bool)) {
 						toks = append(toks, pr.Toks[i+1:]...)
 					}
 					once(strings.Join(toks, " ")+"\n", true)
+					once(mixedLines(toks, i), true)
 				}
 			})
 		})
@@ -122,6 +124,24 @@ func textSpace(w *mc.Worker, tier string, body func(text string, edited bool)) {
 			})
 		})
 	})
+}
+
+// mixedLines lays the tokens out one per line with LF, except that the gap before token k is a
+// CRLF (documents with mixed line endings: error positions and rendering must still hold).
+func mixedLines(toks []string, k int) string {
+	var sb strings.Builder
+	for i, t := range toks {
+		if i > 0 {
+			if i == k || (k == 0 && i == 1) {
+				sb.WriteString("\r\n")
+			} else {
+				sb.WriteString("\n")
+			}
+		}
+		sb.WriteString(t)
+	}
+	sb.WriteString("\n")
+	return sb.String()
 }
 
 func posInText(text string, line, char int) bool {
